@@ -1,4 +1,4 @@
-//go:build verif && (all || c02 || c03 || c04)
+//go:build verif && (all || c01 || c02 || c03 || c04)
 
 package main
 
